@@ -625,7 +625,9 @@ class OutputSchemaBuilder(
 
         # none_as_undefined removes None from field type, but field value can be None
         field_type = Optional[field.type] if field.none_as_undefined else field.type
-        factory = self.visit_with_conv(field_type, field.serialization)
+        with context_setter(self):
+            self.get_flattened = None  # flattening doesn't concern fields own types
+            factory = self.visit_with_conv(field_type, field.serialization)
         field_schema = get_field_schema(tp, field)
         return lambda: graphql.GraphQLField(
             factory.type,
